@@ -149,7 +149,7 @@ HINT = r'''proof {
         }
         '''
 HINT2 = r'''proof {
-            assert(chunk_size as int == rng_c(rng_n(g_lo, g_hi), g_peers));
+            assert(chunk_size as int == rng_c(rng_n(g_lo, g_hi), g_peers));   // #obl:generate_iterator.chunk_size_is_ceil_of_len_over_peers
         }
         '''
 
